@@ -16,6 +16,9 @@ SEMANTIC = ('postcondition not satisfied', 'precondition not satisfied', 'assert
 RESOURCE = ('Resource limit', 'rlimit', 'timed out', 'timeout', 'solver')
 
 
+FN_KINDS = ('fn', 'canary', 'assumed', 'traitfn', 'lemma')
+
+
 class FnResult:
     def __init__(self, label, kind):
         self.label, self.kind = label, kind
@@ -75,7 +78,7 @@ def run(unit_name, text, table, workdir, rlimit=None, extra=(), count_obligation
     res.wall_s = time.time() - t0
     lines = text.split('\n')
     for e in table:
-        if e['kind'] in ('fn', 'canary', 'assumed', 'traitfn'):
+        if e['kind'] in FN_KINDS:
             res.fns[e['label']] = FnResult(e['label'], e['kind'])
     # ---- stdout: json summary
     out = None
@@ -121,11 +124,14 @@ def run(unit_name, text, table, workdir, rlimit=None, extra=(), count_obligation
                'resource': any(k.lower() in msg.lower() for k in RESOURCE),
                'rendered': (d.get('rendered') or '')[:1500]}
         rec['code'] = (d.get('code') or {}).get('code') if isinstance(d.get('code'), dict) else d.get('code')
-        if rec['code'] or not any(k in msg for k in SEMANTIC + RESOURCE) or msg.startswith('function body check'):
+        if rec['resource'] and ent is not None and ent['kind'] in FN_KINDS:
+            # `function body check: Resource limit (rlimit) exceeded`: the function is NOT verified (undecided, never a verdict)
+            res.fns[ent['label']].errors.append(rec)
+        elif rec['code'] or not any(k in msg for k in SEMANTIC + RESOURCE) or msg.startswith('function body check'):
             # rustc / Verus front-end rejection or an unclassified message: never a verdict
-            if not msg.startswith('function body check'):
+            if not (msg.startswith('function body check') and not rec['resource']):
                 hard.append(rec)
-        elif ent is None or ent['kind'] not in ('fn', 'canary', 'assumed', 'traitfn'):
+        elif ent is None or ent['kind'] not in FN_KINDS:
             hard.append(rec)
         else:
             res.fns[ent['label']].errors.append(rec)
@@ -138,7 +144,7 @@ def run(unit_name, text, table, workdir, rlimit=None, extra=(), count_obligation
             p.returncode, '; '.join(h['message'] for h in hard)[:2000] or p.stderr[-2000:])
     elif hard:
         # errors outside any labelled function (spec text, prelude): treat as fatal/undecided
-        sem = [h for h in hard if not h['message'].startswith('function body check')]
+        sem = list(hard)
         if sem:
             res.fatal = 'errors outside labelled functions: ' + '; '.join('%s @%s' % (h['message'], h['line']) for h in sem)[:2000]
     res.unmapped = hard
